@@ -174,6 +174,8 @@ let monitors : (string * (config -> n list -> n list option -> bool)) list = [
   ("C15udp", ok_C15_udp);
   ("C15udp_strict", ok_C15_udp_strict);
   ("C17udp", ok_C17_udp);
+  ("C16udp_ref", ok_C16_udp_ref);            (* universal addresses judged by independent readers, not by the printer *)
+  ("C16udp_ref_strict", ok_C16_udp_ref_strict);
   ("C14udp_ref", ok_C14_udp_ref);            (* 'no signature completed' read on the published list *)
 ]
 
@@ -205,6 +207,8 @@ let monitors_st : (string * (config -> ref_state -> n list -> n list option -> b
   ("C15tcp", ok_C15_tcp);
   ("C15tcp_strict", ok_C15_tcp_strict);
   ("C17tcp", ok_C17_tcp);
+  ("C16tcp_ref", ok_C16_tcp_ref);
+  ("C16tcp_ref_strict", ok_C16_tcp_ref_strict);
   ("C12tcp", ok_C12x_tcp);
 ]
 
